@@ -33,6 +33,9 @@ def _timeouts(draw):
         if draw(st.integers(0, 11)) == 0:
             out[str(typ)] = 'inf'  # event_timeout=float('inf'): never fires, but it is a legal float
             continue
+        if draw(st.integers(0, 11)) == 0:
+            out[str(typ)] = draw(st.sampled_from([0, 0.0]))  # an explicit zero: every handler that suspends at all is over time at once
+            continue
         a = draw(st.sampled_from([1, 2, 3, 4, 5, 6, 8, 10, 12, 16, 24]))
         j = 0 if ongrid else draw(st.integers(1, 3))
         out[str(typ)] = a / 16 + j / 64
